@@ -1077,6 +1077,37 @@ func runC06(r *Run) {
 		f.close()
 	}
 	r.c06UnresponsiveHost()
+	r.c06NeverConnected()
+}
+
+// c06NeverConnected: the fault hits the very first dial (refused), or Dial was never called: a request call on such a
+// client returns an error like on any other client without a connection - it does not panic.
+func (r *Run) c06NeverConnected() {
+	for _, dialFirst := range []bool{true, false} {
+		tc := newTestClient()
+		cs := "request call on a client that was never dialled"
+		if dialFirst {
+			p := newTCPPeer()
+			url := p.url()
+			p.shutdown() // nothing listens there any more: the dial is refused
+			if err := tc.dial(url, 1, client.DialTimeout(fDial)); err == nil {
+				continue
+			}
+			cs = "request call after the first Dial was refused"
+		}
+		ch := tc.doAsync(33, nil, fReq)
+		res, ok := awaitDo(ch, fReq+2*time.Second)
+		if !ok {
+			r.violate(Violation{What: "a request call on a client without a connection did not return", Case: cs})
+		} else if res.panic != "" {
+			r.violate(Violation{What: "a request call on a client without a connection panicked: " + res.panic, Case: cs})
+		} else if res.pkt != nil || res.err == nil {
+			r.violate(Violation{What: "a request call on a client without a connection did not return an error", Case: cs})
+		}
+		r.st.Evaluations++
+		r.count("c06.never-connected")
+		func() { defer func() { recover() }(); tc.cli.Close(nil) }()
+	}
 }
 
 // c06UnresponsiveHost: after the connection is lost the host no longer answers connection attempts at all (no RST, no
